@@ -2148,7 +2148,8 @@ class tensor:
         for element in subs:
             if isinstance(element, slice):
                 if element.stop is None:
-                    sliceCheck.append(1)
+                    # An unbounded slice spans the current extent and never grows it
+                    sliceCheck.append(0)
                 else:
                     sliceCheck.append(element.stop - 1)
             elif isinstance(element, Iterable):
